@@ -131,7 +131,7 @@ def expected_scope(body, scope_kind, guard=False, imports=None, pending=None, me
                 labels.add("async")
             lineno = st.decorator_list[0].lineno if st.decorator_list else st.lineno
             if "property" in labels:
-                members[st.name] = dict(kind="attribute", runtime=not guard, lineno=st.lineno, endlineno=st.end_lineno, labels=labels, setter=False, deleter=False, doc=_body_doc(st))
+                members[st.name] = dict(kind="attribute", runtime=not guard, lineno=lineno, endlineno=st.end_lineno, labels=labels, setter=False, deleter=False, doc=_body_doc(st))
                 events.append(("instance", path + st.name))
                 continue
             fn = dict(kind="function", runtime=not guard, lineno=lineno, endlineno=st.end_lineno, labels=labels, params=_params(st.args), overloads=[], members={}, doc=_body_doc(st))
@@ -285,7 +285,7 @@ def compare_scope(exp, obj, path, lines, out):
                 out.append(f"{p}: setter/deleter attached = {g.setter is not None}/{g.deleter is not None}, source {e['setter']}/{e['deleter']}")
         if e["kind"] == "class":
             compare_scope(e["members"], g, p + ".", lines, out)
-        if not g.is_alias and e["kind"] in ("function", "class") and lines:
+        if not g.is_alias and (e["kind"] in ("function", "class") or (e["kind"] == "attribute" and "setter" in e)) and lines:
             first = lines[gl - 1].lstrip() if gl and gl <= len(lines) else ""
             if not (first.startswith("@") or first.startswith(("def ", "async def ", "class "))):
                 out.append(f"{p}: slicing the source by the span does not start at the definition: {first!r}")
@@ -344,7 +344,7 @@ SIMPLE = ["x = 1", "x: int = 2", "x = y = 3", "y = 4", "import os",
           "@property\ndef p(self): return 1", "@p.setter\ndef p(self, v): pass", "@p.deleter\ndef p(self): pass", "from m2 import a, b as c",
           # docstrings: ordinary, empty-string and multi-line literals on functions, classes, properties and after assignments
           'def h():\n    """Doc of h."""\n    return 1', 'def h():\n    ""\n    return 1', 'class K:\n    ""', 'class K:\n    """Doc of K.\n\n    More.\n    """\n    k = 1\n    "Doc of k."',
-          'x = 7\n""', 'y = 8\n"""Doc of y."""', '@property\ndef p(self):\n    ""\n    return 1', 'x = 9\n"Doc of x."\n"not a docstring"']
+          'x = 7\n""', 'y = 8\n"""Doc of y."""', "x = z['k'] = 3", "w = z[0].q = y = 4", '@property\ndef p(self):\n    ""\n    return 1', 'x = 9\n"Doc of x."\n"not a docstring"']
 COMPOUND = ["if TYPE_CHECKING:\n{0}", "if TYPE_CHECKING:\n{0}\nelse:\n{1}", "if cond:\n{0}\nelse:\n{1}", "try:\n{0}\nexcept E:\n{1}", "for _ in z:\n{0}",
             "class C:\n{0}", "class C:\n{0}\n{1}", "if typing.TYPE_CHECKING:\n{0}\n{1}", "if cond:\n{0}", "if not typing.TYPE_CHECKING:\n{0}", "if x.TYPE_CHECKING:\n{0}",
             "if TYPE_CHECKING:\n    if cond:\n    {0}\n{1}", "class C:\n    def __init__(self):\n        self.x = self.w = 1\n{0}",
